@@ -548,7 +548,7 @@ def check_case(case, ctx):
                     # innermost scope that has an entry, intrinsic names get entries, deferred call names become procedure
                     # symbols). The statement is about the copy and about *later* modifications: counted, not judged.
                     ctx.count(f'observation:clone-refreshed-its-source:{d[0]}')
-                    if d[0] == 'fgen':
+                    if d[0] == 'fgen' and si not in broken and not obs[j][1]['fgen'].startswith('<fgen raises'):
                         ctx.fail('C17:clone:changed-fgen-of-source', case, f'cloning copy {si} changed its own generated code: {d[1]}')
                 elif d:
                     ctx.fail(_changed_sig(d[0], d[1]) + ':by-clone', case,
